@@ -19,7 +19,7 @@
    This file contains only the property theorems; proofs are in Proofs/FsModel*.v. *)
 From Coq Require Import ZArith List Bool.
 Require Import JV.Base.PyPrelude JV.Model.FsModel JV.Proofs.FsModelBase JV.Proofs.FsModelThm
-               JV.Proofs.FsModelProps.
+               JV.Proofs.FsModelProps JV.Proofs.FsModelClear JV.Proofs.FsModelSrcChange.
 Import ListNotations.
 Open Scope Z_scope.
 
@@ -109,6 +109,58 @@ Theorem C05_recover_nonascii_refuted :
     fst (run (Toy.session 100 2 None [ACall 1]) s') = [OExn ValueError].
 Proof. exists 7%nat, 3%nat. exact (proj2 f24_witness). Qed.
 Print Assumptions C05_recover_nonascii_refuted.
+
+(* shutil.rmtree of the function directory, when nobody interferes, removes the whole subtree and
+   nothing else (directory order and depth are arbitrary); hence MemorizedFunc.clear, from ANY
+   well-formed tree, establishes the invariant of the current version. *)
+Theorem C05_rmtree_removes_subtree : forall d s, Tree s ->
+  Tree (snd (run (rmtree_unsafe (S d) false PFunc) s)) /\
+  forall q, lookup q (snd (run (rmtree_unsafe (S d) false PFunc) s)) = if under_func q then None else lookup q s.
+Proof. exact rmtree_func_post. Qed.
+Print Assumptions C05_rmtree_removes_subtree.
+
+Theorem C05_clear_establishes_invariant : forall pickle meta code f cur s,
+  Tree s -> InvB pickle meta code f cur (snd (run (clear_func code cur) s)).
+Proof. exact clear_func_post. Qed.
+Print Assumptions C05_clear_establishes_invariant.
+
+(* The source-change workload (a process whose function source differs from func_code.py calls f(k)),
+   from any directory whose final files are complete: EVERY crash state (any operation index, any torn
+   prefix) is of one of three kinds --
+     Old b : func_code.py still holds the old text b (the next check clears again),
+     Gone  : func_code.py is gone (the process died inside delete_folder/rmtree of the clear),
+     InvB  : the directory satisfies the invariant of the current version
+   and final files are complete in all of them. *)
+Theorem C05_source_change_classified :
+  forall pickle unpickle meta parse_meta code code_eq decodes gitbytes f cur t cb b k n torn s,
+  decodes b = true -> code_eq b cur = false ->
+  InvA pickle meta s -> lookup PCode s = Some b ->
+  let s' := crash_run (session pickle unpickle meta parse_meta code code_eq decodes gitbytes f cur t cb [ACall k]) n torn s in
+  InvA pickle meta s' /\ (Old b s' \/ Gone s' \/ InvB pickle meta code f cur s').
+Proof. exact classified. Qed.
+Print Assumptions C05_source_change_classified.
+
+(* ... and every one of them is recovered by the next process (all its calls return the current
+   function's values, nothing raises, the invariant is established) or lies in the Gone window --
+   which is where finding F23 lives (C05_f23_in_window): the exact list of unrecovered crash states. *)
+Theorem C05_source_change_recovered_or_listed :
+  forall pickle unpickle meta parse_meta code code_eq decodes gitbytes f cur t cb b k n torn s,
+  (forall v, unpickle (pickle v) = Some v) -> (forall j, decodes (firstn j (code cur)) = true) ->
+  decodes b = true -> code_eq b cur = false ->
+  InvA pickle meta s -> lookup PCode s = Some b ->
+  let s' := crash_run (session pickle unpickle meta parse_meta code code_eq decodes gitbytes f cur t cb [ACall k]) n torn s in
+  (forall t' cb' k' ks,
+     Forall2 (fun k o => exists c, o = OVal (f cur k) c) (k' :: ks)
+             (fst (run (session pickle unpickle meta parse_meta code code_eq decodes gitbytes f cur t' cb' (map ACall (k' :: ks))) s')) /\
+     InvB pickle meta code f cur
+          (snd (run (session pickle unpickle meta parse_meta code code_eq decodes gitbytes f cur t' cb' (map ACall (k' :: ks))) s')))
+  \/ Gone s'.
+Proof. exact recovered_or_listed. Qed.
+Print Assumptions C05_source_change_recovered_or_listed.
+
+Theorem C05_f23_in_window : Gone f23_crashed.
+Proof. exact f23_in_window. Qed.
+Print Assumptions C05_f23_in_window.
 
 (* non-vacuity: the hypotheses of C05_recover hold of the concrete instantiation used by the
    correspondence check, from the empty directory *)
